@@ -251,8 +251,12 @@ struct key_tag;
 namespace yorel::yomm2::detail {
 template<class Shape, class Pol, class... A>
 struct static_offsets<method<e1::key_tag<Shape, 2>, int(A...), Pol>> {
-    static inline std::size_t slots[e1::MAXP] = {};
-    static inline std::size_t strides[e1::MAXP] = {};
+    // the shape of the generated specialisations: one slot per virtual
+    // parameter, one stride per virtual parameter after the first (a dummy
+    // for uni-methods, whose generated specialisation has no strides)
+    static constexpr std::size_t N = arity<A...>;
+    static inline std::size_t slots[N] = {};
+    static inline std::size_t strides[N > 1 ? N - 1 : 1] = {};
 };
 } // namespace yorel::yomm2::detail
 
